@@ -53,70 +53,90 @@ def Scenario.init (sc : Scenario) : Cfg St Thr := (St.init, mkClients sc.scripts
 def Scenario.sched (sc : Scenario) : List (Nat × Nat) := schedOf sc.p sc.init sc.moves
 def Scenario.final (sc : Scenario) : Cfg St Thr := runSched (sys sc.p) sc.init sc.sched
 
-/-- start: st0, stWait1, stLock, stWait2(spawn), stUnlock preceded by the `startcall` step. -/
-def startMoves (i : Nat) : List Mv := List.replicate 6 (.cl i)
-/-- shutdown with one worker: sdcall, sd1, send, (j = W) → bcast, bcast, unlock. -/
+/-- start on a stopped, completed pool: startcall, stTry (spawn). -/
+def startMoves (i : Nat) : List Mv := [.cl i, .cl i]
+/-- shutdown with `W` workers: sdcall, sd1, `W` × send, leave the loop, unlock, signal the queue. -/
 def shutdownMoves (i W : Nat) : List Mv := List.replicate (5 + W) (.cl i)
-/-- dispatcher from `loop` into the registered wait on an empty queue. -/
+/-- dispatcher from `loop` into the registered wait on an empty queue: loop, pop(empty), cond, gap. -/
 def dispPark : List Mv := [.disp, .disp, .disp, .disp]
+/-- dispatcher woken on an empty queue of a stopped idle pool: wake, cond, cond2, loop, chk, close. -/
+def dispExit : List Mv := [.disp, .disp, .disp, .disp, .disp, .disp]
 
-/-- **Submit window, variant "lost task"**: the submitter passes the running check, the pool is shut
-down *completely*, then the submitter increases the counter and pushes. -/
-def scWindowLost : Scenario where
-  name := "window-lost"
+/-- client 0 submits a task that is dispatched and run to its end on a running idle pool (dispatcher at `loop`):
+call, check+count, push, return ; loop, pop, send ; sel→sel2, take, end, mark, signal ; dispatcher back to loop. -/
+def runOne : List Mv :=
+  [.cl 0, .cl 0, .cl 0, .cl 0, .disp, .disp, .disp, .wk 0, .wk 0, .wk 0, .wk 0, .wk 0]
+
+/-- **Submit window**: a `Submit` is between its counted running-check and its push while the pool is
+shut down; the dispatcher keeps serving the queue, the task is dispatched and run by the draining
+worker, then everything completes. -/
+def scWindow : Scenario where
+  name := "window"
   p := { W := 1, cancel := false }
   scripts := [[.start], [.submit leaf], [.shutdown, .waitComplete]]
   moves := startMoves 0 ++ dispPark ++ [.cl 1, .cl 1] ++ shutdownMoves 2 1 ++
-    -- dispatcher: woken → cond → loop → size → waitZero → close → none ; worker: sel (signal) → drain → exited
-    [.disp, .disp, .disp, .disp, .disp, .disp, .wk 0, .wk 0] ++
-    -- waitComplete: enter, pass ; submitter: counter++, push, return
-    [.cl 2, .cl 2, .cl 1, .cl 1, .cl 1]
+    -- dispatcher: woken, cond, cond2 (pending > 0: sleeps again) ; worker: sel (signal) → drain
+    [.disp, .disp, .disp, .disp, .wk 0] ++
+    -- the submitter pushes and returns; dispatcher: wake, pop, send ; worker: take, run end, mark, signal
+    [.cl 1, .cl 1, .disp, .disp, .wk 0, .wk 0, .wk 0, .wk 0] ++
+    -- dispatcher: loop, chk, close ; worker exits ; waitComplete
+    [.disp, .disp, .disp, .wk 0, .cl 2, .cl 2]
 
-/-- **Submit window, variant "shutdown hangs"**: a running task keeps the dispatcher in `WaitIsZero`
-while the late push arrives; the pushed task is never dispatched and the counter never reaches zero. -/
-def scWindowHang : Scenario where
-  name := "window-hang"
+/-- The same while another task is still running (the old dispatcher sat in `WaitIsZero` here). -/
+def scWindowBusy : Scenario where
+  name := "window-busy"
   p := { W := 1, cancel := false }
   scripts := [[.start], [.submit leaf], [.submit leaf], [.shutdown, .waitComplete]]
   moves := startMoves 0 ++
-    -- task 0 is submitted, dispatched and started (and stays in its worker function for now)
-    [.cl 1, .cl 1, .cl 1, .cl 1, .cl 1, .disp, .disp, .disp, .wk 0, .wk 0] ++
-    -- task 1's Submit passes the check
-    [.cl 2, .cl 2] ++
-    -- dispatcher parks on the empty queue; shutdown; dispatcher leaves its loop and waits for zero
-    [.disp, .disp, .disp, .disp, .disp] ++ shutdownMoves 3 1 ++ [.disp, .disp, .disp, .disp] ++
-    -- task 1: counter++ and push; task 0 ends and is marked done; worker takes the signal and drains
-    [.cl 2, .cl 2, .cl 2, .wk 0, .wk 0, .cl 3]
+    -- task 0: call, check+count, push, return ; dispatcher: loop, pop, send ; worker: sel→sel2, take (stays inside)
+    [.cl 1, .cl 1, .cl 1, .cl 1, .disp, .disp, .disp, .wk 0, .wk 0] ++
+    -- task 1: call, check+count ; dispatcher parks ; shutdown ; dispatcher: woken, cond, cond2, gap (sleeps again)
+    [.cl 2, .cl 2] ++ dispPark ++ shutdownMoves 3 1 ++ [.disp, .disp, .disp, .disp] ++
+    -- task 1 is pushed, Submit returns ; dispatcher: wake+pop, send
+    [.cl 2, .cl 2, .disp, .disp] ++
+    -- worker: task 0 ends, marked ; sel takes the signal ; drain takes task 1 ; it ends, marked (zero), signal
+    [.wk 0, .wk 0, .wk 0, .wk 0, .wk 0, .wk 0, .wk 0] ++
+    -- dispatcher: loop, chk, close ; worker exits ; waitComplete
+    [.disp, .disp, .disp, .wk 0, .cl 3, .cl 3]
 
-/-- **Lost wake-up**: the dispatcher evaluated the wait condition (running) and has not yet started
-to wait when `Shutdown` broadcasts. -/
-def scGapLost : Scenario where
-  name := "gap-lost"
+/-- **PopOrWait gap**: the dispatcher evaluated `hasWork` and has not yet started to wait when
+`Shutdown` is called; the signal needs the stack mutex, is sent after the dispatcher registered, and
+wakes it. -/
+def scGap : Scenario where
+  name := "gap"
   p := { W := 1, cancel := false }
   scripts := [[.start], [.shutdown, .waitComplete]]
-  moves := startMoves 0 ++ [.disp, .disp, .disp] ++ shutdownMoves 1 1 ++ [.disp, .wk 0, .cl 1]
+  moves := startMoves 0 ++ [.disp, .disp, .disp] ++ List.replicate 5 (.cl 1) ++ [.disp, .cl 1] ++
+    dispExit ++ [.wk 0, .wk 0, .cl 1, .cl 1]
 
-/-- `Shutdown(); Start()` back to back with the repaired `Start`, then a task. -/
+/-- `Shutdown(); Start()` back to back, then a task and a second shutdown. -/
 def scRestart : Scenario where
   name := "restart"
   p := { W := 1, cancel := false }
   scripts := [[.start, .shutdown, .start, .submit leaf, .waitZero, .shutdown, .waitComplete]]
   moves := startMoves 0 ++ dispPark ++ shutdownMoves 0 1 ++
-    -- second Start: startcall, st0 → stWait1 (blocked until the old goroutines are gone)
-    [.cl 0, .cl 0] ++ [.disp, .disp, .disp, .disp, .disp, .disp, .wk 0, .wk 0] ++
-    [.cl 0, .cl 0, .cl 0, .cl 0] ++
-    -- submit: call, check, counter, push, return ; dispatch and run
-    [.cl 0, .cl 0, .cl 0, .cl 0, .cl 0, .disp, .disp, .disp, .wk 0, .wk 0, .wk 0, .wk 0, .cl 0, .cl 0] ++
-    dispPark ++ shutdownMoves 0 1 ++ [.disp, .disp, .disp, .disp, .disp, .disp, .wk 0, .wk 0, .cl 0, .cl 0]
+    -- second Start: startcall, stTry finds the worker alive → stWait
+    [.cl 0, .cl 0] ++ dispExit ++ [.wk 0, .wk 0] ++ [.cl 0, .cl 0] ++
+    -- submit: call, check+count, push, return ; dispatch and run
+    [.cl 0, .cl 0, .cl 0, .cl 0, .disp, .disp, .disp, .wk 0, .wk 0, .wk 0, .wk 0, .wk 0, .cl 0, .cl 0] ++
+    dispPark ++ shutdownMoves 0 1 ++ dispExit ++ [.wk 0, .wk 0, .cl 0, .cl 0]
 
-/-- The same life cycle with `Start` as it was before the fix: the second `Start` holds the pool
-lock while it waits, the dispatcher cannot read `isRunning`. -/
-def scOldStart : Scenario where
-  name := "old-start"
-  p := { W := 1, cancel := false, oldStart := true }
-  scripts := [[.start, .shutdown, .start]]
-  moves := List.replicate 5 (.cl 0) ++ dispPark ++ shutdownMoves 0 1 ++ [.cl 0, .cl 0, .cl 0, .disp, .wk 0]
+/-- **Start window**: a `Start` (client 1) found the workers of the previous run alive; while it is between
+its unlock and its wait, client 0 restarts the pool and stops it again.  Client 1 waits for that shutdown
+without the lock and then starts the pool. -/
+def scStartRace : Scenario where
+  name := "start-race"
+  p := { W := 1, cancel := false }
+  scripts := [[.start, .submit leaf, .shutdown, .waitComplete, .start, .submit leaf, .shutdown], [.start],
+    [.shutdown, .waitComplete]]
+  moves := startMoves 0 ++ runOne ++ dispPark ++ shutdownMoves 0 1 ++
+    -- client 1: startcall, stTry → stWait (parked in the window)
+    [.cl 1, .cl 1] ++ dispExit ++ [.wk 0, .wk 0] ++ [.cl 0, .cl 0] ++
+    -- client 0: Start, a task, Shutdown again
+    startMoves 0 ++ runOne ++ dispPark ++ shutdownMoves 0 1 ++ dispExit ++ [.wk 0, .wk 0] ++
+    -- client 1: wait passes, stTry spawns ; client 2 shuts the pool down for good
+    [.cl 1, .cl 1] ++ dispPark ++ shutdownMoves 2 1 ++ dispExit ++ [.wk 0, .wk 0, .cl 2, .cl 2]
 
-def scenarios : List Scenario := [scWindowLost, scWindowHang, scGapLost, scRestart, scOldStart]
+def scenarios : List Scenario := [scWindow, scWindowBusy, scGap, scRestart, scStartRace]
 
 end Hive.WP
